@@ -51,7 +51,7 @@ theorem f5_header_with_eof (P : Prims) (secret : Bytes) (r : Reader) (out : Writ
 def f5Prims : Prims :=
   { md5 := fun x => (x ++ List.replicate 16 7).take 16,
     C := ⟨fun _ x => x, fun _ x => x⟩, A := ⟨fun _ _ p _ => p, fun _ _ c _ => some c⟩,
-    KS := fun _ _ _ => 0, b64enc := id, b64dec := some, hexenc := id, hexdec := some }
+    KS := fun _ _ _ => 0, b64enc := id, b64raw := fun _ => ([], false), hexenc := id }
 
 /-- a well-formed stream (`"Salted__"`, salt 1..8, three payload bytes) behind a
 one-byte-at-a-time reader -/
